@@ -37,6 +37,16 @@ class C06(Prop):
                              "critical sections of SubjectThreads with data: Conc/SubjectSteps.lean, validated by "
                              "one-preemption replays on the real code (suite inject)")
 
+    # translator tie: Subject / SubjectThreads (the compiler's own expansion of the subject macros) and the
+    # Subscriber slot, generated from the current source, are the list part / the alive bit of the subject model
+    tie_modules = {
+        "RxModel.GenTie.Subject": [],
+        "RxModel.GenTie.SubjectThreads": [],
+        "RxModel.GenTie.Subscriber": [],
+        "RxModel.GenTie.SubscriberThreads": [],
+        "RxModel.GenTie.RcObserver": [],
+    }
+
     def cases(self, tier, seed):
         rng = random.Random(seed)
         out = []
